@@ -76,8 +76,11 @@ func (c *Context) SpawnChild(p Producer, name string, opts ...OptFunc) *PID {
 	}
 	proc := newProcess(c.engine, options)
 	proc.context.parentCtx = c
-	pid := c.engine.SpawnProc(proc)
-	c.children.Set(pid.ID, pid)
+	// The child is entered into the parent's children before it is started: a child that
+	// stops during its own start (a panic beyond max restarts in Initialized/Started)
+	// takes itself out again. Entering it afterwards left a dead child in Children().
+	c.children.Set(proc.pid.ID, proc.pid)
+	c.engine.SpawnProc(proc)
 
 	return proc.PID()
 }
